@@ -504,6 +504,35 @@ func C14Scenarios(tier string) []*Scenario {
 			}
 		}
 	}
+	// a context declared by name on one method must not make the same-named parameter of a sibling method a context
+	for _, declName := range []string{"Aaa", "Zzz"} {
+		for _, sibDeclares := range []bool{false, true} {
+			n++
+			id := fmt.Sprintf("%05d", n)
+			u := space.StdUniverse()
+			pIn, pOut := space.N(u.Get("in", "P")), space.N(u.Get("out", "P"))
+			sc := &Scenario{ID: "GL" + id, PropGen: "C14", PropVal: "C14", Test: "Convert", Funcs: map[string]string{},
+				Desc: map[string]any{"class": fmt.Sprintf("sibling-context-name declaring=%s sibling-declares=%v", declName, sibDeclares)}}
+			conv := &model.Converter{OutPkg: "conv/generated", LitPkg: "conv"}
+			sc.Conv = conv
+			decl := &model.Method{Name: declName, Src: pIn, Dst: pOut, Fields: map[string]*model.FieldCfg{}, CtxTypes: []*space.Ty{tStr}}
+			sib := &model.Method{Name: "Convert", Src: space.S(pIn), Dst: space.S(pOut), Fields: map[string]*model.FieldCfg{}, CtxTypes: []*space.Ty{tStr}}
+			conv.Methods = []*model.Method{sib, decl}
+			var sibLines []string
+			if sibDeclares {
+				sibLines = []string{"context ctxa"}
+			} else {
+				sc.Forced, sc.ForcedReject = true, "parameter ctxa of Convert is not declared as context: two sources"
+			}
+			sc.Methods = []*ScMethod{
+				{Name: "Convert", Params: "ctxa string, source " + space.S(pIn).Go("conv"), Result: space.S(pOut).Go("conv"), Lines: sibLines, M: sib},
+				{Name: declName, Params: "source " + pIn.Go("conv") + ", ctxa string", Result: pOut.Go("conv"), Lines: []string{"context ctxa"}, M: decl},
+			}
+			sc.SrcIdx, sc.CtxIdx = 1, []int{0}
+			sc.Mode = "value,nomutate"
+			out = append(out, sc)
+		}
+	}
 	for _, site := range []string{"extend", "mapfunc", "default"} {
 		for _, kind := range c14DeclKinds {
 			n++
